@@ -8,6 +8,6 @@ cd $W && git apply "$PATCH" 2>/dev/null || { echo "=== $TAG: PATCH DOES NOT APPL
 S=skipped
 if [ "$4" != "notest" ]; then S=ok; (go build ./... && go vet . && go test -vet=off -count=1 .) >/dev/null 2>&1 || S=FAIL; fi
 mkdir -p /tmp/swpv.$TAG && cp /verif/known_findings.json /tmp/swpv.$TAG/
-out=$(/verif/bin/artcheck -sweep -tier $TIER -repo $W -verif /tmp/swpv.$TAG 2>&1 | head -1)
+out=$(${ARTCHECK_BIN:-/verif/bin/artcheck} -sweep -tier $TIER -repo $W -verif /tmp/swpv.$TAG 2>&1 | head -1)
 echo "=== $TAG suite=$S $out" | cut -c1-${WIDTH:-900}
 cd /; git -C /repo worktree remove --force $W; rm -rf /tmp/swpv.$TAG
